@@ -74,6 +74,12 @@ MarginalOp ==
   /\ pmeta = "data" /\ Len(post) > 0
   /\ last' = [kind |-> "values", ids |-> Ids(post)]
   /\ Log(<<"marginal">>) /\ UNCHANGED <<lib, post, pmeta, whole, file>>
+\* the orbit of every held row (get_orbit + radial_velocity): the curve its own columns describe NOW - whatever was read, wrapped,
+\* copied or pickled before; reading it changes nothing
+OrbitsOp ==
+  /\ pmeta = "data" /\ Len(post) > 0
+  /\ last' = [kind |-> "values", ids |-> Ids(post)]
+  /\ Log(<<"orbits">>) /\ UNCHANGED <<lib, post, pmeta, whole, file>>
 
 Next ==
   /\ Len(ops) < MaxOps
@@ -81,7 +87,7 @@ Next ==
      \/ \E nReq \in Pick(NReqSet) : \E nLin \in Pick({1, 2}) : Iterative(nReq, nLin)
      \/ SliceFront \/ SliceBack \/ Second \/ MaskOdd \/ LastRow \/ Copy \/ WrapK \/ Pickle
      \/ \E ow \in Pick(BOOLEAN) : \E ap \in Pick(BOOLEAN) : WriteOp(ow, ap)
-     \/ ReadOp \/ MAPOp \/ MedianOp \/ MarginalOp
+     \/ ReadOp \/ MAPOp \/ MedianOp \/ MarginalOp \/ OrbitsOp
 Done == Len(ops) = MaxOps /\ UNCHANGED vars
 Spec == Init /\ [][Next \/ Done]_vars
 
